@@ -488,8 +488,25 @@ func (b *Builder) AllComparisonSeries(existing []*ComparisonSeries, dupeHow int)
 		// TODO not handling overlapping samples between "existing" and "newly read" yet.
 
 		// Rearrange into paired comparisons, gathering repeats of same comparison from multiple experiments.
-		for tk, tr := range t.cells {
+		//
+		// Visit the trials and their tests in a fixed order so
+		// that the result does not depend on map iteration order
+		// (which trial is seen first decides ties between
+		// experiments and which hash pair is recorded).
+		tks := make([]tableKey, 0, len(t.cells))
+		for tk := range t.cells {
+			tks = append(tks, tk)
+		}
+		sort.Slice(tks, func(i, j int) bool {
+			bi, bj := tks[i].Benchmark.StringValues(), tks[j].Benchmark.StringValues()
+			if bi != bj {
+				return bi < bj
+			}
+			return tks[i].Experiment.StringValues() < tks[j].Experiment.StringValues()
+		})
+		for _, tk := range tks {
 			// tk == bench, experiment, tr == baseline, tests, tests == map hash -> cell.
+			tr := t.cells[tk]
 			bench := tk.Benchmark
 			dateString, err := NormalizeDateString(tk.Experiment.StringValues())
 			if err != nil {
@@ -497,7 +514,15 @@ func (b *Builder) AllComparisonSeries(existing []*ComparisonSeries, dupeHow int)
 			}
 			benchString := bench.StringValues()
 			benches[benchString] = struct{}{}
-			for hash, cell := range tr.tests {
+			hashes := make([]benchproc.Key, 0, len(tr.tests))
+			for hash := range tr.tests {
+				hashes = append(hashes, hash)
+			}
+			sort.Slice(hashes, func(i, j int) bool {
+				return hashes[i].StringValues() < hashes[j].StringValues()
+			})
+			for _, hash := range hashes {
+				cell := tr.tests[hash]
 				hashString := hash.StringValues()
 				ser := b.hashToOrder[hash]
 				serString, err := NormalizeDateString(ser.StringValues())
